@@ -1721,6 +1721,12 @@ class Interp:
             return z3.LastIndexOf(s, a[0])
         if name == "replace" and len(a) == 2:
             return _replace_all(s, a[0], a[1])
+        if name == "replace" and len(a) == 3 and isinstance(args[2], int) and 0 <= args[2] <= 4 and isinstance(args[0], str) and args[0] and args[1] == "":
+            # replace(old, "", n): removing the first occurrence n times equals removing the first n occurrences
+            out = s
+            for _ in range(args[2]):
+                out = z3.Replace(out, a[0], a[1])
+            return out
         if name == "isdigit" and not a:
             # ASCII model (assumption A2)
             return z3.InRe(s, z3.Plus(z3.Range("0", "9")))
